@@ -699,7 +699,9 @@ func (g *Gen) evalSel(x *CExpr, env *Env) (Val, error) {
 		if p, err := g.place(x, env); err == nil {
 			lv := g.loadPtr(env.st, p)
 			g.arrayLenFact(lv)
-			g.preexisting(lv) // a reference read from the entry heap denotes an object older than anything allocated since
+			if !strings.Contains(lv.T, "!b") { // not under a quantifier
+				g.preexisting(lv)
+			} // a reference read from the entry heap denotes an object older than anything allocated since
 			return lv, nil
 		}
 	}
@@ -1095,6 +1097,12 @@ func (g *Gen) evalCall(x *CExpr, env *Env) (Val, error) {
 			g.vc.clock = "0"
 		}
 		t := fmt.Sprintf("(and (fresh$ %s) (> (allocid$ %s) %s))", args[0].T, args[0].T, g.vc.clock)
+		if g.assumingFresh && !strings.Contains(args[0].T, "!b") && !strings.ContainsAny(args[0].T, " ()") {
+			if g.vc.allocSet == nil {
+				g.vc.allocSet = map[string]bool{}
+			}
+			g.vc.allocSet[args[0].T] = true // the result of an assumed constructor is a new object
+		}
 		if !strings.Contains(args[0].T, "!b") {
 			e := g.vc.freshConst("epoch", "Int")
 			g.vc.lines = append(g.vc.lines, fmt.Sprintf("(assert (and (> %s %s) (> %s (allocid$ %s))))", e, g.vc.clock, e, args[0].T))
